@@ -719,7 +719,9 @@ func recLazy(c *core.Ctx, r *core.Reporter) {
 		r.Check(len(core.Loops(fn)) == 0, "Plan.planMergedFieldChildren/no-loop", fn.Pos(), "no loop (object children planned once, abstract children lazily)",
 			"planMergedFieldChildren contains a loop: abstract fields are planned per possible type at plan time")
 	} else {
-		r.Unknown("Plan.planMergedFieldChildren", token.NoPos, "not found")
+		// inlined into its callers (they loop over the collected fields, which is fine): eager expansion would still need
+		// to enumerate possible types or call abstractAlternative, which the two neighbouring obligations decide
+		r.Exists("Plan.planMergedFieldChildren/no-loop", pq.Pos(), "the function no longer exists as such; eager expansion is excluded by the enumeration and who-may-call obligations")
 	}
 	aa := c.Func("", "Plan.abstractAlternative")
 	var callers []string
